@@ -370,7 +370,25 @@ func (m *Machine) symIntCmp(op token.Token, c int64, s SymInt, constLeft bool) V
 			rel = 0
 		}
 	default:
-		panic(m.undecided("comparison of a symbolic string length with %d", target))
+		// len(S) against a positive constant: decided by the known minimum length (literal pieces, one byte per non-empty
+		// hole) when that suffices; otherwise the relation is a three-way decision of this world
+		minLen := int64(0)
+		for _, pc := range s.S.P {
+			if pc.Hole == nil {
+				minLen += int64(len(pc.Lit))
+			} else if pc.Hole.A != nil && pc.Hole.A.NonEmpty {
+				minLen++
+			}
+		}
+		if minLen > target {
+			rel = 1
+		} else {
+			rel = []int{-1, 0, 1}[m.Decide(fmt.Sprintf("strlen:%s:%d", strKey(s.S), target), 3, fmt.Sprintf("length of a symbolic string against %d", target))]
+			if rel == -1 && minLen == target {
+				// infeasible choice (the string is at least that long): fold into "equal"
+				rel = 0
+			}
+		}
 	}
 	if constLeft {
 		rel = -rel
